@@ -1,15 +1,15 @@
 (* C04 -- authentication order, method preference, SAFECOOKIE proof discipline, ready exactly once.
    Only statements; each closed by `exact <lemma of Proofs/C04*.v>`.
 
-   Full statement (kept visible; `oracle` of Spec/C04Oracle.v is its executable form):
-     forall hmac e ops tr, List.length (e_nonce e) = 32 -> cmp_injective hmac e ->
-       run hmac e ops = Some tr -> oracle hmac e ops tr = true
-   It is FALSE of the faithful model on the input class of finding C04-F1 (a usable cookie whose
-   path has a byte >= 128: unescape_quoted_string + open() mangle the path), see
-   C04_high_path_refuted and C04_unescape_roundtrip_refuted.  What is proved is the _partial
-   statement with `cookie_path_high e = false` (inside `wf e`), for ALL hmac functions, method
-   lists, file systems, providers, nonces and stimulus sequences the model accepts.
-   `cmp_injective` is the only cryptographic hypothesis: compare_via_hash has no collision. *)
+   Full statement (`oracle` of Spec/C04Oracle.v is its executable form), PROVED below as
+   C04_oracle_holds for ALL hmac functions, method lists, file systems, cookie paths (all 256 byte
+   values), providers, nonces and stimulus sequences the model accepts:
+     forall hmac e, List.length (e_nonce e) = 32 -> cmp_injective hmac e ->
+       forall ops tr, run hmac e ops = Some tr -> oracle hmac e ops tr = true
+   (`wf e` is the nonce length; `cmp_injective` is the only cryptographic hypothesis:
+   compare_via_hash has no collision).  Finding C04-F1 (a cookie path with a byte >= 128 was
+   mangled) was repaired in /repo by a1fd963; its former witness now satisfies the oracle
+   (C04_former_witness_ok) and the unescape round-trip holds for every path. *)
 From Coq Require Import String List Bool Ascii Arith NArith.
 From TxVerif Require Import Lib.Bytes Lib.Hex Spec.C04 Spec.C04Oracle Gen.AuthConsts Model.Auth
   Proofs.C04Unescape Proofs.C04Auth Proofs.C04Sim Proofs.C04Sim4 Proofs.C04Proofs
@@ -19,13 +19,13 @@ Import ListNotations.
 Open Scope N_scope.
 
 (* the Spec oracle (clauses A-E) accepts every trace of the model *)
-Theorem C04_oracle_holds_partial : forall hmac e, wf e -> cmp_injective hmac e ->
+Theorem C04_oracle_holds : forall hmac e, wf e -> cmp_injective hmac e ->
   forall ops tr, run hmac e ops = Some tr -> oracle hmac e ops tr = true.
 Proof. exact oracle_holds. Qed.
-Print Assumptions C04_oracle_holds_partial.
+Print Assumptions C04_oracle_holds.
 
 (* first usable of SAFECOOKIE, COOKIE, password, NULL, for every method list *)
-Theorem C04_preference_partial : forall e, wf e -> pi_auth (e_pi e) = true ->
+Theorem C04_preference : forall e, wf e -> pi_auth (e_pi e) = true ->
   exists r, do_authenticate e = Some r /\
   match expected e with
   | Some MSafe => exists c, good_cookie e = Some c /\ r = (PhChal c, [chal_line e])
@@ -36,20 +36,20 @@ Theorem C04_preference_partial : forall e, wf e -> pi_auth (e_pi e) = true ->
   | None => r = fail 1 0
   end.
 Proof. exact preference. Qed.
-Print Assumptions C04_preference_partial.
+Print Assumptions C04_preference.
 
-Theorem C04_password_only_without_cookie_partial : forall e r, wf e -> do_authenticate e = Some r ->
+Theorem C04_password_only_without_cookie : forall e r, wf e -> do_authenticate e = Some r ->
   In EPwCall (snd r) -> good_cookie e = None /\ expected e = Some MPassword.
 Proof. exact password_only_without_cookie. Qed.
-Print Assumptions C04_password_only_without_cookie_partial.
+Print Assumptions C04_password_only_without_cookie.
 
-Theorem C04_cookie_is_32_partial : forall e r, wf e -> do_authenticate e = Some r ->
+Theorem C04_cookie_is_32 : forall e r, wf e -> do_authenticate e = Some r ->
   (forall c, fst r = PhChal c -> nlen c = 32) /\
   (forall c, good_cookie e = Some c -> In (auth_line c) (snd r) -> nlen c = 32) /\
   (fst r = PhAuth -> expected e = Some MCookie ->
    exists c, nlen c = 32 /\ snd r = [auth_line c] /\ good_cookie e = Some c).
 Proof. exact cookie_is_32. Qed.
-Print Assumptions C04_cookie_is_32_partial.
+Print Assumptions C04_cookie_is_32.
 
 (* whatever answers the AUTHCHALLENGE: something is written only if the reply is a challenge
    reply whose hash passed the comparison, and then it is exactly the client proof *)
@@ -66,11 +66,11 @@ Proof. exact proof_after_check. Qed.
 Print Assumptions C04_safecookie_proof_after_check.
 
 (* whole histories under SAFECOOKIE: every AUTHENTICATE argument ever written is a client proof *)
-Theorem C04_safecookie_only_proof_partial : forall hmac e ck,
+Theorem C04_safecookie_only_proof : forall hmac e ck,
   wf e -> expected e = Some MSafe -> good_cookie e = Some ck ->
   forall ops tr, run hmac e ops = Some tr -> Forall (safe_writes hmac e ck) tr.
 Proof. exact safecookie_only_proof. Qed.
-Print Assumptions C04_safecookie_only_proof_partial.
+Print Assumptions C04_safecookie_only_proof.
 
 (* every state: before acceptance (and except the accepting step itself) a step writes nothing
    but PROTOCOLINFO / AUTHCHALLENGE / AUTHENTICATE (the application submits nothing: stated) *)
@@ -98,22 +98,19 @@ Theorem C04_ready_ok_only_after_bootstrap : forall hmac e s o s' evs,
 Proof. exact ready_ok_only_after_bootstrap. Qed.
 Print Assumptions C04_ready_ok_only_after_bootstrap.
 
-(* the model of unescape_quoted_string inverts Tor's esc_for_log on every path of bytes < 128 *)
-Theorem C04_unescape_roundtrip_partial : forall p, high_byte p = false ->
-  unescape (esc_for_log p) = Some p.
+(* unescape_quoted_string followed by the latin-1 re-encoding gives back the original BYTES of
+   every path Tor can escape (all 256 byte values) *)
+Theorem C04_unescape_roundtrip : forall p, unescape (esc_for_log p) = Some p.
 Proof. exact unescape_roundtrip. Qed.
-Print Assumptions C04_unescape_roundtrip_partial.
+Print Assumptions C04_unescape_roundtrip.
 
-(* finding C04-F1 *)
-Theorem C04_unescape_roundtrip_refuted : exists p, unescape (esc_for_log p) <> Some p.
-Proof. exact unescape_roundtrip_refuted. Qed.
-Print Assumptions C04_unescape_roundtrip_refuted.
-
-Theorem C04_high_path_refuted : exists e ops tr,
-  List.length (e_nonce e) = 32%nat /\ high_path_valid_cookie e = true /\
-  run (tab_hmac []) e ops = Some tr /\ oracle (tab_hmac []) e ops tr = false.
-Proof. exact high_path_refuted. Qed.
-Print Assumptions C04_high_path_refuted.
+(* the former witness of finding C04-F1: a 32-byte cookie at /tmp/caf\xc3\xa9, METHODS=COOKIE *)
+Theorem C04_former_witness_ok : exists tr,
+  high_path_valid_cookie w_env = true /\
+  run (tab_hmac []) w_env [OOk DProto] = Some tr /\ oracle (tab_hmac []) w_env [OOk DProto] tr = true /\
+  In (auth_line (rep 32 99)) (List.concat tr).
+Proof. exact former_witness_ok. Qed.
+Print Assumptions C04_former_witness_ok.
 
 (* the hypotheses are satisfiable by a non-trivial case: SAFECOOKIE over a quoted path, a correct
    server hash, signal/names refused with 552, ready = success, then the connection is lost *)
